@@ -32,6 +32,7 @@ TRUSTED_BASE_COMMON = [
     "hand-written Gallina model of the Go code named in the property anchors",
     "correspondence harness (Go, built from /repo's working tree with -tags verif) and the cases.v printer",
     "bin/check parsing of coqc output",
+    "tools/consts (Go, go/parser + go/constant): package-level and function-level integer constants, constant slices and the cipher-suite table of tlcp / dtlcp / pa -> coq/Model/GenConsts.v, regenerated from the sources before every build; the *_constants_are_the_sources / suite-table theorems compare the models' numbers with it",
 ]
 
 
@@ -53,6 +54,10 @@ def gen_skeleton():
     if not os.path.isdir(os.path.join(ROOT, "tools", "skel")):
         return True, ""
     rc, out = sh([os.path.join(ROOT, "bin", "genskel")], env=dict(GOENV, VERIF_REPO=REPO), timeout=600)
+    if rc == 0 and os.path.isdir(os.path.join(ROOT, "tools", "consts")):
+        # constants, constant slices and the cipher-suite table of the sources -> coq/Model/GenConsts.v
+        rc, out2 = sh([os.path.join(ROOT, "bin", "genconsts")], env=dict(GOENV, VERIF_REPO=REPO), timeout=600)
+        out += out2
     return rc == 0, out
 
 
